@@ -99,7 +99,8 @@ func evalC09(c *engine.Case) engine.Verdict {
 	// unique producer per label => the set of executed functions is determined
 	unique := true
 	srcs := engine.AllSourceLabels(sc)
-	fs := append([]engine.FuncSpec{sc.Target}, sc.Convs...)
+	// (the converters a generator emits have parameters of their own)
+	fs := append(append([]engine.FuncSpec{sc.Target}, sc.Convs...), engine.GeneratedConvs(sc)...)
 	for i := range fs {
 		for _, p := range fs[i].In {
 			if engine.Candidates(p, srcs, engine.RPlus) > 1 {
@@ -174,7 +175,7 @@ func evalC09(c *engine.Case) engine.Verdict {
 	uniqueFor := func(st C09Step) bool {
 		s2 := stepScenario(st)
 		srcs := engine.AllSourceLabels(s2)
-		fs := append([]engine.FuncSpec{s2.Target}, s2.Convs...)
+		fs := append(append([]engine.FuncSpec{s2.Target}, s2.Convs...), engine.GeneratedConvs(s2)...)
 		for i := range fs {
 			for _, p := range fs[i].In {
 				if engine.Candidates(p, srcs, engine.RPlus) > 1 {
